@@ -91,6 +91,9 @@ func driveBaseMul(c *ctx) {
 	for i := 0; i < c.scale(100, 3000); i++ {
 		scalars = append(scalars, randBig(r, bigN))
 	}
+	for _, v := range steeredScalars(r, 0) { // round 10: the steered set of the variable-base multiply (ties, chosen halves, recoding-bias limbs) as well
+		scalars = append(scalars, v)
+	}
 	for idx, s := range scalars {
 		s = new(big.Int).Mod(s, bigN)
 		sc := scFrom(s)
@@ -116,6 +119,13 @@ func driveBaseMul(c *ctx) {
 			v = secp256k1.NewGeneratorPoint()
 			v.DoubleScalarMultBasepointVartime(sc, secp256k1.NewScalar(), secp256k1.NewGeneratorPoint())
 			c.E("bm.Mult", "kind", "vartime_dsm", "s", h32(s), "out", ptRaw(v))
+			if idx%5 == 1 { // ... with the receiver ALSO the point operand (round 10): u1*G must not be written into it before u2*P has been read
+				u2 := scFrom(big.NewInt(int64(2 + idx%7)))
+				p := rep(mulG(big.NewInt(int64(3+idx))), big.NewInt(int64(5+idx)))
+				pre := ptRaw(p)
+				p.DoubleScalarMultBasepointVartime(sc, u2, p)
+				c.E("dsm", "alias", "v=p", "u1", h32(s), "u2", h32(big.NewInt(int64(2+idx%7))), "p", pre, "out", ptRaw(p))
+			}
 		}
 		if idx%4 == 0 && s.Sign() != 0 {
 			priv, err := secec.NewPrivateKey(be32(s)[:])
